@@ -55,7 +55,7 @@ func (x *Ctx) typeSwitchCases(pkgRel, funcName string) map[string]bool {
 }
 
 func init() {
-	register(&Rule{ID: "S5", Min: 10, Text: "escape discipline of the YSON writer: in every Marshal function of package yson, each dynamic string (a map key or value, a struct field, a string primitive) interpolated into the output goes through strconv.Quote; only constants and the results of Quote/Join/Marshal/base64/time formatting are interpolated raw. In the parse direction no textual rewrite (strings.ReplaceAll, Regexp.ReplaceAll*) may be applied to input that still contains unparsed string literals, and user object keys must not be interpreted as syntax",
+	register(&Rule{ID: "S5", Min: 10, Text: "escape discipline of the YSON writer: in every Marshal function of package yson, each dynamic string (a map key or value, a struct field, a string primitive) interpolated into the output goes through strconv.Quote; only constants and the results of Quote/Join/Marshal/base64/time formatting are interpolated raw. In the parse direction user object keys must not be interpreted as syntax (textual rewrites of the unparsed input are decided by rule YSON.lex)",
 		Run: func(x *Ctx) {
 			safeCalls := map[string]bool{"Quote": true, "Join": true, "Marshal": true, "marshalElement": true, "marshalPrimitive": true, "EncodeToString": true, "Format": true, "Sprintf": true, "FormatInt": true, "Itoa": true}
 			n := map[string]int{}
@@ -136,34 +136,7 @@ func init() {
 				}
 			}
 			x.C.Count("strings interpolated by YSON marshal functions", total)
-			// parse direction: textual rewrites of unparsed input
-			pre := x.fn(ysonPkg + ".preprocessTypeValues")
-			um := x.fn(ysonPkg + ".Unmarshal")
-			for _, fn := range []*ssa.Function{pre, um} {
-				if fn == nil {
-					continue
-				}
-				rewrites := 0
-				var at ssa.Instruction
-				for _, c := range prog.CallsIn(fn) {
-					o := prog.CallObj(c)
-					if o == nil {
-						continue
-					}
-					if o.FullName() == "strings.ReplaceAll" || (strings.HasPrefix(o.Name(), "ReplaceAll") && o.Pkg() != nil && o.Pkg().Path() == "regexp") || o.FullName() == "strings.Replace" {
-						// applied to the input parameter (or a rewrite of it)?
-						if prog.DependsOn(c.Common().Args[len(c.Common().Args)-3+0], func(w ssa.Value) bool { _, isP := w.(*ssa.Parameter); return isP }) ||
-							prog.DependsOn(c.Common().Args[0], func(w ssa.Value) bool { _, isP := w.(*ssa.Parameter); return isP }) {
-							rewrites++
-							at = c
-						}
-					}
-				}
-				if rewrites > 0 {
-					x.fail("func="+prog.FnName(fn)+" string-unaware-rewrite-of-unparsed-input", x.pos(at),
-						fmt.Sprintf("%d textual replacement(s) are applied to the whole input before it is tokenised: constructor-like text and ')' inside string literals are rewritten too", rewrites))
-				}
-			}
+			// parse direction: textual rewrites of unparsed input are decided by rule YSON.lex (closure of Unmarshal)
 			// in-band type tag: a constant-key lookup on a user object decides the grammar
 			for _, name := range []string{"parseObject", "parseArray"} {
 				fn := x.fn(ysonPkg + "." + name)
